@@ -23,8 +23,10 @@ theorem peakMarkerLines_style (v : Bool) (s : HvTrad ℝ) :
       x.style = (if v then StyleClass.peakIndividualValid else StyleClass.peakIndividualInvalid) := by
   intro x hx
   unfold peakMarkerLines at hx
-  simp only at hx
-  split at hx
+  cases v <;> simp only [if_true, if_false, Bool.false_eq_true] at hx ⊢ <;> split at hx
+  · cases hx
+  · rw [List.mem_singleton] at hx
+    rw [hx]
   · cases hx
   · rw [List.mem_singleton] at hx
     rw [hx]
@@ -37,24 +39,21 @@ theorem meanStdLines_style (o : PanelOpts) (st : PanelStats ℝ) (l : List (Line
     ∀ x ∈ l, IsStatStyle x.style := by
   unfold meanStdLines at h
   split at h
-  · cases h1 : st.meanCurve o.dMc with
-    | error e => simp [h1, bind, Except.bind] at h
-    | ok mc =>
-      simp only [h1, bind, Except.bind] at h
-      split at h
+  · simp only [bind, Except.bind] at h
+    split at h
+    · cases h
+    · split at h
       · simp only [pure, Except.pure, Except.ok.injEq] at h
         subst h
         intro x hx
         rw [List.mem_singleton] at hx
         subst hx
         exact Or.inl rfl
-      · cases h2 : st.nthStdCurve (Arith.ofNat 1) o.dMc with
-        | error e => simp [h2] at h
-        | ok up =>
-          cases h3 : st.nthStdCurve (-(Arith.ofNat 1)) o.dMc with
-          | error e => simp [h2, h3] at h
-          | ok dn =>
-            simp only [h2, h3, pure, Except.pure, Except.ok.injEq] at h
+      · split at h
+        · cases h
+        · split at h
+          · cases h
+          · simp only [pure, Except.pure, Except.ok.injEq] at h
             subst h
             intro x hx
             simp only [List.mem_cons, List.not_mem_nil, or_false] at hx
@@ -71,13 +70,12 @@ theorem fnBandLines_style (o : PanelOpts) (st : PanelStats ℝ) (l : List (Line 
     ∀ x ∈ l, IsStatStyle x.style := by
   unfold fnBandLines at h
   split at h
-  · cases h1 : st.nthFn (-(Arith.ofNat 1)) o.dFn with
-    | error e => simp [h1, bind, Except.bind] at h
-    | ok lo =>
-      cases h2 : st.nthFn (Arith.ofNat 1) o.dFn with
-      | error e => simp [h1, h2, bind, Except.bind] at h
-      | ok hi =>
-        simp only [h1, h2, bind, Except.bind, pure, Except.pure, Except.ok.injEq] at h
+  · simp only [bind, Except.bind] at h
+    split at h
+    · cases h
+    · split at h
+      · cases h
+      · simp only [pure, Except.pure, Except.ok.injEq] at h
         subst h
         intro x hx
         rw [List.mem_singleton] at hx
@@ -87,6 +85,8 @@ theorem fnBandLines_style (o : PanelOpts) (st : PanelStats ℝ) (l : List (Line 
     subst h
     intro x hx
     cases hx
+end HV.C20
+
 
 theorem peakMeanLine_eq (d : Dist) (st : PanelStats ℝ) (l : List (Line ℝ)) (h : peakMeanLine d st = .ok l) :
     ∃ p, st.meanCurvePeak d = .ok p ∧
